@@ -194,6 +194,7 @@ class ChaseLevDeque {
     }
     // t == b: last element. Race with stealers via CAS on top.
     bottom_.store(b + 1, std::memory_order_relaxed);
+    DISPENSO_VERIF_POINT(::dispenso::verif::kChaseLevPopBeforeCas);
     return top_.compare_exchange_strong(
         t, t + 1, std::memory_order_seq_cst, std::memory_order_relaxed);
   }
@@ -222,6 +223,7 @@ class ChaseLevDeque {
     bottom_.store(b + 1, std::memory_order_relaxed);
     alignas(T) char tmp[sizeof(T)];
     std::memcpy(tmp, slotPtr(b), sizeof(T));
+    DISPENSO_VERIF_POINT(::dispenso::verif::kChaseLevPopBeforeCas);
     if (!top_.compare_exchange_strong(
             t, t + 1, std::memory_order_seq_cst, std::memory_order_relaxed)) {
       return false;
@@ -264,6 +266,7 @@ class ChaseLevDeque {
     DISPENSO_TSAN_ANNOTATE_IGNORE_READS_BEGIN();
     out = *slotPtr(t);
     DISPENSO_TSAN_ANNOTATE_IGNORE_READS_END();
+    DISPENSO_VERIF_POINT(::dispenso::verif::kChaseLevStealBeforeCas);
     return top_.compare_exchange_strong(
         t, t + 1, std::memory_order_seq_cst, std::memory_order_relaxed);
   }
@@ -285,6 +288,7 @@ class ChaseLevDeque {
     DISPENSO_TSAN_ANNOTATE_IGNORE_READS_BEGIN();
     std::memcpy(tmp, slotPtr(t), sizeof(T));
     DISPENSO_TSAN_ANNOTATE_IGNORE_READS_END();
+    DISPENSO_VERIF_POINT(::dispenso::verif::kChaseLevStealBeforeCas);
     if (!top_.compare_exchange_strong(
             t, t + 1, std::memory_order_seq_cst, std::memory_order_relaxed)) {
       return false;
